@@ -17,7 +17,7 @@ from .._models import (
     enforce_url,
 )
 from .._ssl import default_ssl_context
-from .._synchronization import Lock
+from .._synchronization import Lock, ShieldCancellation
 from .._trace import Trace
 from .connection import HTTPConnection
 from .connection_pool import ConnectionPool
@@ -315,9 +315,17 @@ class TunnelHTTPConnection(ConnectionInterface):
                         or self._remote_origin.host.decode("ascii"),
                         "timeout": timeout,
                     }
-                    with Trace("start_tls", logger, request, kwargs) as trace:
-                        stream = stream.start_tls(**kwargs)
-                        trace.return_value = stream
+                    try:
+                        with Trace("start_tls", logger, request, kwargs) as trace:
+                            stream = stream.start_tls(**kwargs)
+                            trace.return_value = stream
+                    except BaseException:
+                        # The tunnel cannot be used. Close the connection to
+                        # the proxy, so that the pool drops it rather than
+                        # keeping a slot occupied by it for ever.
+                        with ShieldCancellation():
+                            self._connection.close()
+                        raise
 
                 # Determine if we should be using HTTP/1.1 or HTTP/2
                 ssl_object = stream.get_extra_info("ssl_object")
